@@ -140,7 +140,7 @@ A64_TARGET_DIR = os.path.join(CACHE, "a64-target")
 A64_RUSTFLAGS = "-Zmir-opt-level=0 -Awarnings"
 
 
-def _a64_cargo(extra_env, sel, cwd):
+def _a64_cargo(extra_env, sel, cwd, target_dir=None):
     """`cargo +nightly check -Zbuild-std --target aarch64-unknown-linux-gnu`: no aarch64 rust-std is installed, but
     rust-src is, and every crate the standard library needs is in the offline cargo cache (the same set miri's
     sysroot build uses), so core/alloc/std are *checked* from source for the foreign target.  Only metadata is
@@ -148,7 +148,7 @@ def _a64_cargo(extra_env, sel, cwd):
     env = _env()
     env["LD_LIBRARY_PATH"] = os.path.join(_nightly_sysroot(), "lib") + ":" + env.get("LD_LIBRARY_PATH", "")
     env["RUSTFLAGS"] = A64_RUSTFLAGS
-    env["CARGO_TARGET_DIR"] = A64_TARGET_DIR
+    env["CARGO_TARGET_DIR"] = target_dir or A64_TARGET_DIR
     env.pop("RUSTC_WRAPPER", None)
     env.pop("RUSTC_WORKSPACE_WRAPPER", None)
     env.update(extra_env)
@@ -180,12 +180,28 @@ def _run_rsfacts_a64(outdir):
     sel = []
     for p in pk:
         sel += ["-p", p]
-    with open(os.path.join(CACHE, "a64-target.lock"), "w") as lk:
-        fcntl.flock(lk, fcntl.LOCK_EX)
-        for fp in glob.glob(os.path.join(A64_TARGET_DIR, "*", "debug", ".fingerprint", "dora*")) + \
-                glob.glob(os.path.join(A64_TARGET_DIR, "debug", ".fingerprint", "dora*")):
-            shutil.rmtree(fp, ignore_errors=True)
-        r = _a64_cargo({"RUSTC_WORKSPACE_WRAPPER": RSFACTS_BIN, "RSFACTS_OUT": outdir}, sel, REPO)
+    if os.environ.get("VERIF_REPO") and os.path.isdir(A64_TARGET_DIR):
+        # self-test on a scratch copy of /repo: work on a private copy of the target directory (the standard
+        # library's metadata is reused, the copies run in parallel instead of queueing on one target directory)
+        base = os.environ.get("VERIF_TMP", "/var/tmp")
+        private = tempfile.mkdtemp(prefix="verif-a64-target-", dir=base)
+        try:
+            with open(os.path.join(CACHE, "a64-target.lock"), "w") as lk:
+                fcntl.flock(lk, fcntl.LOCK_SH)
+                subprocess.run(["cp", "-a", A64_TARGET_DIR + "/.", private], check=False)
+            for fp in glob.glob(os.path.join(private, "*", "debug", ".fingerprint", "dora*")) + \
+                    glob.glob(os.path.join(private, "debug", ".fingerprint", "dora*")):
+                shutil.rmtree(fp, ignore_errors=True)
+            r = _a64_cargo({"RUSTC_WORKSPACE_WRAPPER": RSFACTS_BIN, "RSFACTS_OUT": outdir}, sel, REPO, private)
+        finally:
+            shutil.rmtree(private, ignore_errors=True)
+    else:
+        with open(os.path.join(CACHE, "a64-target.lock"), "w") as lk:
+            fcntl.flock(lk, fcntl.LOCK_EX)
+            for fp in glob.glob(os.path.join(A64_TARGET_DIR, "*", "debug", ".fingerprint", "dora*")) + \
+                    glob.glob(os.path.join(A64_TARGET_DIR, "debug", ".fingerprint", "dora*")):
+                shutil.rmtree(fp, ignore_errors=True)
+            r = _a64_cargo({"RUSTC_WORKSPACE_WRAPPER": RSFACTS_BIN, "RSFACTS_OUT": outdir}, sel, REPO)
     if r.returncode != 0:
         lines = r.stdout.splitlines()
         first = [l for l in lines if l.startswith("error")]
